@@ -25,6 +25,11 @@ func main() {
 		os.Exit(2)
 	}
 	os.MkdirAll(*out, 0o755)
+	// a private temp dir: the library's recorder files (column_*.log) are counted by the resource probes
+	if dir, err := os.MkdirTemp("", "vh-tmp-"); err == nil {
+		os.Setenv("TMPDIR", dir)
+		defer os.RemoveAll(dir)
+	}
 	switch *family {
 	case "seq":
 		for i := 0; i < *n; i++ {
@@ -40,6 +45,23 @@ func main() {
 			evs := h.RunSeq(s, p)
 			name := fmt.Sprintf("%s-%s-%d.ndjson", *family, p.Name, s)
 			if err := h.WriteTrace(filepath.Join(*out, name), evs); err != nil {
+				fmt.Fprintln(os.Stderr, "vh:", err)
+				os.Exit(2)
+			}
+		}
+	case "fault":
+		for i := 0; i < *n; i++ {
+			s := *seed*1000003 + int64(i)
+			if *one == 0 && i%*shards != *shard {
+				continue
+			}
+			if *one != 0 {
+				s = *one
+				*n = 1
+			}
+			p := h.FaultProfileFor(*profile, s)
+			name := fmt.Sprintf("%s-%s-%d.ndjson", *family, p.Name, s)
+			if err := h.WriteTrace(filepath.Join(*out, name), h.RunFault(s, p)); err != nil {
 				fmt.Fprintln(os.Stderr, "vh:", err)
 				os.Exit(2)
 			}
